@@ -16,7 +16,7 @@ HERE = os.path.dirname(os.path.dirname(os.path.abspath(__file__)))
 REPO = os.environ.get("PYVC_REPO", "/repo")
 KNOWN = os.path.join(HERE, "known_findings.jsonl")
 REPLAY_DIR = os.path.join(HERE, "replays")
-EVID_DIR = os.path.join(HERE, "evidence")
+EVID_DIR = os.environ.get("PYVC_EVIDENCE_DIR") or os.path.join(HERE, "evidence")   # (seed runs write elsewhere)
 
 
 def load_known(prop: str) -> List[Dict[str, Any]]:
